@@ -541,10 +541,15 @@ impl C20 {
         }
         let reply = drv.ask(case);
         let parts: Vec<&str> = reply.split('|').map(|s| s.trim()).collect();
-        if parts.len() != 4 {
+        if parts.len() != 6 {
             panic!("driver reply malformed: {reply} (request {case})");
         }
         let (m_trace, s_trace) = (parse_u(parts[0]), parse_u(parts[1]));
+        // the generic container code over the Vec backing (`BMap (vecBacking Nat)`) is the model of `GroupingVec`
+        let mv_trace = parse_u(parts[4]);
+        if let Some(d) = trace_diff(nkeys, &ops, &mv_trace, &s_trace) {
+            out.fail(Kind::ModelVsSpec, "gmap-vec", format!("gmap vec-model/spec: {d}"), format!("vec model: {}\nspec: {}", parts[4], parts[1]));
+        }
         if let Some(d) = trace_diff(nkeys, &ops, &m_trace, &s_trace) {
             out.fail(Kind::ModelVsSpec, "gmap", format!("gmap model/spec: {d}"), format!("model: {}\nspec: {}", parts[0], parts[1]));
         }
@@ -565,14 +570,15 @@ impl C20 {
                     if let Some(d) = trace_diff(nkeys, &ops, &run.trace, &s_trace) {
                         out.fail(Kind::ImplVsSpec, &stream, format!("history: {d}"), format!("impl: {}\nspec: {}", show_u(&run.trace), parts[1]));
                     }
-                    if let Some(d) = trace_diff(nkeys, &ops, &run.trace, &m_trace) {
-                        out.fail(Kind::ImplVsModel, &stream, format!("history (model): {d}"), format!("impl: {}\nmodel: {}", show_u(&run.trace), parts[0]));
+                    let (model_trace, model_txt, model_items) = if backing == "vec" { (&mv_trace, parts[4], parts[5]) } else { (&m_trace, parts[0], parts[2]) };
+                    if let Some(d) = trace_diff(nkeys, &ops, &run.trace, model_trace) {
+                        out.fail(Kind::ImplVsModel, &stream, format!("history (model): {d}"), format!("impl: {}\nmodel: {model_txt}", show_u(&run.trace)));
                     }
                     match &run.items {
                         Err(p) => out.fail(Kind::ImplPanic, "iter_all", format!("panic {}", strip_msg(p)), format!("iter_all panicked after {split} ops: {p}")),
                         Ok(items) => {
-                            if show_i(items) != parts[2] {
-                                out.fail(Kind::ImplVsModel, "iter_all", "iter_all items differ", format!("impl: {}\nmodel: {}", show_i(items), parts[2]));
+                            if show_i(items) != model_items {
+                                out.fail(Kind::ImplVsModel, "iter_all", "iter_all items differ", format!("impl ({backing}): {}\nmodel: {model_items}", show_i(items)));
                             }
                         }
                     }
@@ -951,6 +957,14 @@ impl C20 {
                     if i != m || tag_value(after) != Some(n0 + (t * n) as u64) {
                         out.fail(Kind::ImplVsModel, "tags", "tags: values are not the model's contiguous range", format!("impl: {i} next={:?}\nmodel: {m}", tag_value(after)));
                     }
+                    // the instruction-level machine (mutex as a primitive) under a pseudo-random scheduler
+                    if t * n <= 400 {
+                        out.tag("tg:instruction-level-model");
+                        let mf = drv.ask(&format!("tf {n0} {t} {n} {}", vals[0] % 97));
+                        if i != mf {
+                            out.fail(Kind::ImplVsModel, "tags", "tags: values differ from the instruction-level model", format!("impl: {i}\nmodel: {mf}"));
+                        }
+                    }
                 } else {
                     // opaque tags: distinctness through Eq/Ord only
                     let set: BTreeSet<Tag> = all.iter().copied().collect();
@@ -1281,6 +1295,7 @@ impl Property for C20 {
             for t in [1usize, 2, 4, 8, 16, 32, 64] {
                 v.push(format!("tg {t} {n}"));
                 v.push(format!("tg {t} 1"));
+                v.push(format!("tg {t} {}", (320 / t).max(1)));
                 v.push(format!("st {t} {}", if t == 1 { 1 } else { 300 }));
             }
         }
